@@ -144,6 +144,7 @@ __CPROVER_assigns(__CPROVER_object_upto(sockaddr, sizeof(struct sockaddr_storage
 __CPROVER_ensures(sockaddr->sa_family == xcm_ip->family)
 __CPROVER_ensures(xv_sa_src == (const void *)xcm_ip && xv_sa_dst == (const void *)sockaddr && xv_sa_port == port && xv_sa_scope == scope)
 ;
+#define XV_KC_BIND_SAME (XV_SAME(xv_kc.bind_calls) && XV_SAME(xv_kc.bind_ok_calls) && XV_SAME(xv_kc.bind_fd))
 #define XV_XP_REG_SAME (XV_SAME(xv_reg_fd) && XV_SAME(xv_reg_event) && XV_SAME(xv_reg_id))
 #define XV_TM_SCHED_SAME (XV_SAME(xv_sched_id) && XV_SAME(xv_sched_timeout) && XV_SAME(xv_sched_mgr))
 #define XV_TM_EXP_SAME (XV_SAME(xv_expired_ret) && XV_SAME(xv_expired_n))
@@ -209,11 +210,7 @@ __CPROVER_ensures(xv_est_n == __CPROVER_old(xv_est_n) + 1 && xv_est_fd == fd && 
 #define TRK_CUR_OK(t) ((t)->ip_idx >= 0 && TRK_SUPP(t, TRK_FAM(t, (t)->ip_idx)))
 #define TRK_CURFD(t) (TRK_FAM(t, (t)->ip_idx) == AF_INET ? (t)->fd4 : (t)->fd6)
 #define TRK_AI_IN(t) (xv_ai >= 0 && xv_ai < (t)->num_remote_ips)
-/* ranges of the (signed) counters of env/fd.h: room for one connect + one disconnect + one bind per remaining address */
-#define TRK_REMAINING(t) ((t)->num_remote_ips - (t)->ip_idx)
-#define TRK_GHOST_OK(t) (XV_FD_GHOST_RANGE && xv_connect_calls < XV_CALLS_MAX - 2 * TRK_REMAINING(t) - 2 && xv_connect_ok_calls < XV_CALLS_MAX - 2 * TRK_REMAINING(t) - 2 && \
-                         xv_bind_calls < XV_CALLS_MAX - TRK_REMAINING(t) && xv_bind_ok_calls < XV_CALLS_MAX - TRK_REMAINING(t) && \
-                         XV_DT_CNT_OK(xv_regs) && XV_DT_CNT_OK(xv_timers) && xv_regs < XV_DT_CNT_MAX - 2 && xv_timers < XV_DT_CNT_MAX - 2 && \
+#define TRK_GHOST_OK(t) (XV_DT_CNT_OK(xv_regs) && XV_DT_CNT_OK(xv_timers) && xv_regs < XV_DT_CNT_MAX - 2 && xv_timers < XV_DT_CNT_MAX - 2 && \
                          xv_pre_eff_fd == -1 && xv_pre_bind_fd == -1)
 #define XV_FK_SAME_TC (xv_fdt.e[xv_fk].open == __CPROVER_old(xv_fdt.e[xv_fk].open) && xv_fdt.e[xv_fk].nonblock == __CPROVER_old(xv_fdt.e[xv_fk].nonblock))
 /* no descriptor opened, closed or altered */
@@ -227,7 +224,7 @@ __CPROVER_ensures(xv_est_n == __CPROVER_old(xv_est_n) + 1 && xv_est_fd == fd && 
 #define TRK_REQUIRES_REST(t) (TRK_REQUIRES_SHAPE(t) && TRK_GHOST_OK(t))
 
 #define TRK_ASSIGNS(t) (t)->ip_idx, (t)->state, (t)->badness_reason, (t)->fd_reg_id, (t)->timer_id
-#define TCN_GHOST_ASSIGNS xv_errno, xv_eff, xv_sa, xv_xp, xv_tm, XV_BINDW_ASSIGNS, XV_CONNECT_ASSIGNS, xv_conn
+#define TCN_GHOST_ASSIGNS xv_errno, xv_tc
 
 #define XV_AROW_SAME (XV_SAME(xv_att_begun) && XV_SAME(xv_att_failed) && XV_SAME(xv_att_conn) && XV_SAME(xv_att_errno) && XV_SAME(xv_att_conn_rc) && \
                       XV_SAME(xv_att_conn_errno) && XV_SAME(xv_att_conn_fd) && XV_SAME(xv_att_conn_src))
@@ -263,7 +260,7 @@ __CPROVER_ensures(xv_est_n == __CPROVER_old(xv_est_n) + 1 && xv_est_fd == fd && 
                             xv_conn_n - __CPROVER_old(xv_conn_n) <= (unsigned)(TCN_END(t) - (i0) - 1) + ((t)->state != track_state_bad ? 1u : 0u))
 /* EVERY attempt: options snapshot applied to the descriptor, then (local address configured) bound to it, registered, then connect() to remote_ips[ip_idx]:remote_port */
 #define TCN_ORDER(t) (XV_SAME(xv_unprepared) && XV_SAME(xv_wrong_addr) && XV_SAME(xv_unregistered) && \
-                      ((t)->local_ip != NULL ? XV_SAME(xv_unbound) : XV_SAME(xv_bind_calls)) && xv_pre_eff_fd == -1 && xv_pre_bind_fd == -1)
+                      ((t)->local_ip != NULL ? XV_SAME(xv_unbound) : XV_SAME(xv_kc.bind_calls)) && xv_pre_eff_fd == -1 && xv_pre_bind_fd == -1)
 /* every attempt but the one it stopped at was dissolved again (connect(AF_UNSPEC)) -- only attempts that got as far as connect() */
 #define TCN_ABORTED(t) (xv_disc_n - __CPROVER_old(xv_disc_n) == (xv_conn_n - __CPROVER_old(xv_conn_n)) - ((t)->state != track_state_bad ? 1u : 0u))
 /* C04: in progress => the descriptor is registered for EPOLLOUT and the connect timer is armed with tcp_connect_timeout */
@@ -314,16 +311,16 @@ __CPROVER_requires(TRK_FRESH(track) && TRK_NUM_OK(track))
 __CPROVER_requires(TRK_IPS_FRESH(track))
 __CPROVER_requires(TRK_LOCAL_FRESH(track))
 __CPROVER_requires(TRK_REQUIRES_SHAPE(track) && TRK_CUR_OK(track))
-__CPROVER_requires(XV_FD_GHOST_RANGE && XV_DT_CNT_OK(xv_regs) && XV_DT_CNT_OK(xv_timers))
+__CPROVER_requires(XV_DT_CNT_OK(xv_regs) && XV_DT_CNT_OK(xv_timers))
 __CPROVER_requires((track->fd_reg_id < 0 || xv_regs > 0) && (track->timer_id < 0 || xv_timers > 0))
-__CPROVER_assigns(track->fd_reg_id, track->timer_id, xv_errno, xv_xp, xv_tm, XV_CONNECT_ASSIGNS, xv_conn)
+__CPROVER_assigns(track->fd_reg_id, track->timer_id, xv_errno, xv_xp, xv_tm, xv_kc, xv_conn)
 /* PO[C08] track_abort_connect.releases_registration_and_timer */
 __CPROVER_ensures(track->fd_reg_id == -1 && track->timer_id == -1 && xv_regs == __CPROVER_old(xv_regs) - (__CPROVER_old(track->fd_reg_id) >= 0 ? 1 : 0) && \
                   xv_timers == __CPROVER_old(xv_timers) - (__CPROVER_old(track->timer_id) >= 0 ? 1 : 0))
 /* PO[C13,C08] track_abort_connect.dissolves_the_attempt: one connect(AF_UNSPEC) on the descriptor of the current address; the descriptor stays open for the next address */
 __CPROVER_ensures(xv_disc_n == __CPROVER_old(xv_disc_n) + 1 && xv_disc_fd == TRK_CURFD(track) && TRK_FDT_SAME)
-__CPROVER_ensures(xv_connect_calls == __CPROVER_old(xv_connect_calls) + 1 && xv_connect_fd == TRK_CURFD(track) && \
-                  xv_connect_ok_calls >= __CPROVER_old(xv_connect_ok_calls) && xv_connect_ok_calls <= __CPROVER_old(xv_connect_ok_calls) + 1)
+__CPROVER_ensures(xv_kc.connect_calls == __CPROVER_old(xv_kc.connect_calls) + 1 && xv_kc.connect_fd == TRK_CURFD(track) && \
+                  xv_kc.connect_ok_calls - __CPROVER_old(xv_kc.connect_ok_calls) <= 1u && XV_KC_BIND_SAME)
 /* no attempt is made here */
 __CPROVER_ensures(XV_CONN_ATT_SAME && XV_XP_REG_SAME && XV_TM_SCHED_SAME && XV_TM_EXP_SAME)
 ;
